@@ -167,12 +167,51 @@ def run(m: Model, r: Report, tier: str) -> None:
                  "every concrete request class is reachable by dynamic parsing", floor=60)
     r.rule("R9", "address/length-format helpers put memorySize length in the high and memoryAddress length in the low nibble", floor=3)
     r.rule("R10", "UDSClient service methods forward every parameter to the constructor parameter of the same name", floor=30)
+    r.rule("R12", "named fields sit at the ISO 14229-1 positions (sub-byte packing, order of equal-width neighbours, repeated groups)", floor=25)
     r.rule("R11", "from_pdu returns a typed request only after comparing its re-serialisation with the parsed bytes (non-canonical "
                   "encodings fall back to RawRequest, which keeps the bytes)", floor=2)
     from sa.uds_rules import request_roundtrip_guard
     request_roundtrip_guard(m, r, "R11")
 
+    # routing by sub-function must not depend on the suppress bit: every quantity the registry lookup compares is the same for
+    # byte 1 = b and b | 0x80 (exhaustive over b)
+    from sa.util import byte_fn
+    import copy as _copy
+    n_rt = 0
+    for c in m.classes.values():
+        f = c.methods.get("_sub_function_type")
+        if f is None or c.module.name != SERVICE:
+            continue
+        ppar = f.params()[1] if len(f.params()) > 1 else "pdu"
+        sym = f"{ppar}[1]"
+        defs = {n.targets[0].id: n.value for n in walk_no_nested(f.node) if isinstance(n, ast.Assign) and isinstance(n.targets[0], ast.Name) and sym in ast.unparse(n.value)}
+        class _Sub(ast.NodeTransformer):
+            def visit_Name(self, node):
+                return _copy.deepcopy(defs[node.id]) if node.id in defs else node
+        sides = []
+        for n in walk_no_nested(f.node):
+            if isinstance(n, ast.Compare):
+                for side in [n.left] + n.comparators:
+                    full = _Sub().visit(_copy.deepcopy(side))
+                    if sym in ast.unparse(full):
+                        sides.append(full)
+        if not sides:
+            raise AnalysisError(f"{f.qualname}: no comparison on byte 1 found")
+        for side in sides:
+            fn_ = byte_fn(m, f.module, side, sym)
+            if fn_ is None:
+                raise AnalysisError(f"{f.qualname}: `{ast.unparse(side)}` is outside the byte expression language")
+            n_rt += 1
+            diff = [b for b in range(128) if fn_(b) != fn_(b | 0x80)]
+            r.check(not diff, "R3", f"{f.qualname}#suppress-bit-invariant",
+                    f"the sub-function lookup compares `{ast.unparse(side)}`, which differs between byte 1 = {diff[0]:#04x} and {diff[0] | 0x80:#04x}: requests with the "
+                    "suppressPosRspMsgIndicationBit set are routed differently (degraded to RawRequest by the dynamic parser)" if diff else "", loc=f.loc)
+    if n_rt < 2:
+        raise AnalysisError("sub-function routing functions not found")
+
     registered = reg.registered_requests()
+    from sa.codec import field_placement
+    field_placement(m, r, "R12", ca, list(registered), iso14229.FIELD_PLACEMENT)
     # ---------------------------------------------------------------- R8
     for p in reg.pairs:
         if p.request is None or p.service_id is None:
